@@ -5,7 +5,7 @@ one() {
   id=$1; d=/verif/seeded/$id
   [ -f $d/confirm.txt ] && exit 0
   prop=$(echo $id | cut -c1-3)
-  case $id in *-r2) wt=/tmp/seed2_$prop;; *-r3) wt=/tmp/seed3_$prop;; *-r4) wt=/tmp/seed4_$prop;; *-r5) wt=/tmp/seed5_$prop;; *-r6) wt=/tmp/seed6_$prop;; *) wt=/tmp/seed_$id;; esac
+  case $id in *-r2) wt=/tmp/seed2_$prop;; *-r3) wt=/tmp/seed3_$prop;; *-r4) wt=/tmp/seed4_$prop;; *-r5) wt=/tmp/seed5_$prop;; *-r6) wt=/tmp/seed6_$prop;; *-r7) wt=/tmp/seed7_$prop;; *) wt=/tmp/seed_$id;; esac
   /verif/tools/confirm_seed.sh $id $d full $wt > /tmp/confirm_${id}_full.log 2>&1
   { cat /tmp/confirm_${id}_full.verdict; echo "--- tests summary:"; grep -E "passed|failed|^FAILED|^ERROR" /tmp/confirm_${id}_full.tests.txt | tail -6; echo "--- demo without:"; grep -E "PASS|FAIL|exit=" /tmp/confirm_${id}_full.demo_without.txt | tail -3; echo "--- demo with:"; grep -E "PASS|FAIL|exit=" /tmp/confirm_${id}_full.demo_with.txt | tail -3; } > $d/confirm.txt 2>&1
 }
